@@ -183,8 +183,28 @@ func Main(prop, level string, layers ...Layer) {
 	func() {
 		defer func() {
 			if r := recover(); r != nil {
-				fmt.Printf("HARNESS-ERROR: monitor panicked: %v\n%s\n", r, debug.Stack())
-				code = 2
+				st := string(debug.Stack())
+				// a panic raised inside the code under test (first non-runtime frame below
+				// the panic is repository code) is a verdict, not a monitor failure
+				where := ""
+				for _, line := range strings.Split(st, "\n") {
+					if strings.HasPrefix(line, "panic(") || strings.HasPrefix(line, "runtime.") || strings.HasPrefix(line, "runtime/debug.") || strings.HasPrefix(line, "\t") || strings.HasPrefix(line, "goroutine ") || strings.HasPrefix(line, "verif/lib/harness.") || line == "" {
+						continue
+					}
+					if strings.HasPrefix(line, "github.com/synnaxlabs/") {
+						where = strings.TrimPrefix(line, "github.com/synnaxlabs/")
+						if i := strings.LastIndex(where, "("); i > 0 {
+							where = where[:i]
+						}
+					}
+					break
+				}
+				if where != "" {
+					h.Violation("", -1, strings.ToLower(prop)+":engine-panic:"+where, fmt.Sprintf("the code under test panicked: %v (in %s)", r, where), map[string]any{"stack": st})
+				} else {
+					fmt.Printf("HARNESS-ERROR: monitor panicked: %v\n%s\n", r, st)
+					code = 2
+				}
 			}
 		}()
 		for _, l := range layers {
